@@ -21,6 +21,7 @@ RootDims == <<"ntex", "nmat", "ngrp", "nport", "npref", "nvbl", "nlight", "ndd",
 LayoutCase == [kind |-> "layout", id |-> 0, elem |-> Elem, mohd_fields |-> MohdFields,
                mohd_offs |-> [j \in 1..Len(MohdFields) |-> MohdFieldOff(j)],
                containers |-> [MOGP |-> MogpHdrSize],
+               mobn |-> MobnFieldOffs, mopr |-> MoprFieldOffs,
                momt_tex1 |-> MomtTex1Off, momt_tex2 |-> MomtTex2Off, mogi_name |-> MogiNameOff, modd_name |-> ModdNameOff]
 
 \* pvpat / vblpat: which inner lists (portal vertex lists, visible-block lists) are non-empty: bit j-1 set <=> list j
@@ -28,7 +29,10 @@ LayoutCase == [kind |-> "layout", id |-> 0, elem |-> Elem, mohd_fields |-> MohdF
 RootP(kind, v, to, cnt, sky, nm, xf, pvpat, vblpat) ==
     [kind |-> kind, id |-> 0, ver |-> v, to |-> to, ntex |-> cnt.ntex, nmat |-> cnt.nmat, ngrp |-> cnt.ngrp,
      nport |-> cnt.nport, npv |-> 4, pvpat |-> pvpat, npref |-> cnt.npref, nvbl |-> cnt.nvbl, vbl |-> 3, vblpat |-> vblpat,
-     nlight |-> cnt.nlight, ndd |-> cnt.ndd, nds |-> cnt.nds, sky |-> sky, names |-> nm, xf |-> xf]
+     nlight |-> cnt.nlight, ndd |-> cnt.ndd, nds |-> cnt.nds, sky |-> sky, names |-> nm, xf |-> xf, prefs |-> << >>]
+\* prefs: a structurally valid portal graph from WmoLayout (rows [portal, group, side]) instead of arbitrary references
+RingRows(np, ng) == [j \in 1..(2 * np) |-> <<PortalRing(np, ng)[j].portal, PortalRing(np, ng)[j].group, PortalRing(np, ng)[j].side>>]
+WithRing(r) == [r EXCEPT !.prefs = RingRows(r.nport, r.ngrp), !.npref = 2 * r.nport]
 Root(kind, v, to, cnt, sky, nm, xf) == RootP(kind, v, to, cnt, sky, nm, xf, 7, 7)
 RootX(pvpat, vblpat, kind, v, to, cnt, sky, nm, xf) == RootP(kind, v, to, cnt, sky, nm, xf, pvpat, vblpat)
 AllAt(c)        == [d \in {RootDims[j] : j \in 1..Len(RootDims)} |-> c]
@@ -47,6 +51,9 @@ RootSlices ==
   \* lists of lists: an empty inner list at every position (all 8 patterns over three lists, both patterns over one)
   \cup {RootP("root", v, 0, OnlyAt("nport", 3), 0, "plain", 0, pat, 7) : v \in Versions, pat \in 0..7}
   \cup {RootP("root", v, 0, OnlyAt("nvbl", 3), 0, "plain", 0, 7, pat) : v \in Versions, pat \in 0..7}
+  \* structurally valid portal graphs (rings), alone and inside a fully populated root
+  \cup {WithRing(Root("root", v, 0, [AllAt(0) EXCEPT !.nport = np, !.ngrp = ng], 0, "plain", 0)) : v \in {VClassic, VMop}, np \in {1, 3}, ng \in {3}}
+  \cup {WithRing(Root("root", v, 0, AllAt(3), 1, "prefix", 0)) : v \in Versions}
   \cup {RootP("root", v, 0, AllAt(c), 1, "plain", 0, pat, 7 - pat) : v \in {VClassic, VWotlk, VMop}, pat \in 0..7, c \in {1, 3}}
   \cup {Root("root", v, 0, AllAt(1), s, "prefix", 1) : v \in Versions, s \in {0, 1}}
   \cup (IF Thorough THEN {Root("root", v, 0, TwoAt(d1, d2, c), 0, "prefix", 0) : v \in Versions, d1 \in DimSet, d2 \in DimSet, c \in {1, 3}}
@@ -66,9 +73,15 @@ RandRoot(j) ==
 NRandRoot == IF Thorough THEN 10000 ELSE 160
 
 \* ---- groups
-Group(kind, v, to, a, b, c, d, e, f, g, h, i, xf) ==
+\* bsp: a well-formed BSP tree from the catalogue of WmoLayout (as [axis, leaf 0/1, neg, pos, nfaces, fstart] rows), or
+\* << >> = nbsp nodes with arbitrary field values
+BspRows(t) == [j \in 1..Len(BspCatalog[t]) |->
+                 <<BspCatalog[t][j].axis, IF BspCatalog[t][j].leaf THEN 1 ELSE 0, BspCatalog[t][j].neg, BspCatalog[t][j].pos,
+                   BspCatalog[t][j].nfaces, BspCatalog[t][j].fstart>>]
+GroupB(kind, v, to, a, b, c, d, e, f, g, h, i, xf, bsp) ==
     [kind |-> kind, id |-> 0, ver |-> v, to |-> to, nvert |-> a, nidx |-> b, nnorm |-> c, ntc |-> d, ncol |-> e,
-     nbatch |-> f, nbsp |-> g, liq |-> h, lw |-> 3, lh |-> 4, ndref |-> i, xf |-> xf]
+     nbatch |-> f, nbsp |-> IF bsp = << >> THEN g ELSE Len(bsp), liq |-> h, lw |-> 3, lh |-> 4, ndref |-> i, xf |-> xf, bsp |-> bsp]
+Group(kind, v, to, a, b, c, d, e, f, g, h, i, xf) == GroupB(kind, v, to, a, b, c, d, e, f, g, h, i, xf, << >>)
 GroupSlices ==
        {Group("group", v, 0, 0, 0, 0, 0, -1, 0, -1, 0, -1, 0) : v \in Versions}
   \cup {Group("group", v, 0, 3, 9, 3, 3, 3, 3, 4, 2, 3, xf) : v \in Versions, xf \in {0, 1}}
@@ -79,6 +92,9 @@ GroupSlices ==
   \cup {Group("group", v, 0, 0, 0, 0, 0, -1, f, -1, 0, -1, 0) : v \in {VClassic, VMop}, f \in {1, 3}}
   \cup {Group("group", v, 0, 0, 0, 0, 0, -1, 0, g, 0, -1, 0) : v \in {VClassic, VMop}, g \in {0, 1, 4}}
   \cup {Group("group", v, 0, 0, 0, 0, 0, -1, 0, -1, h, -1, 0) : v \in {VClassic, VMop}, h \in {1, 2}}
+  \* every catalogued BSP tree, alone and inside a fully populated group
+  \cup {GroupB("group", v, 0, 0, 0, 0, 0, -1, 0, 0, 0, -1, 0, BspRows(t)) : v \in {VClassic, VMop}, t \in 1..Len(BspCatalog)}
+  \cup {GroupB("group", v, 0, 3, 9, 3, 3, 3, 3, 0, 2, 3, 0, BspRows(t)) : v \in Versions, t \in 1..Len(BspCatalog)}
   \cup {Group("group", v, 0, 0, 0, 0, 0, -1, 0, -1, 0, i, 0) : v \in {VClassic, VMop}, i \in {0, 1, 3}}
 RandGroup(j) ==
     LET r == Stream(Start(2, j), 12) IN
